@@ -38,13 +38,13 @@ class ModelMixin(Generic[T]):
         """
         if session is None:
             session = db.session
-        try:
-            return cast(Optional[T], session.execute(
-                db.select(cls).filter_by(**kwargs)).scalar_one_or_none())
-        except OverflowError:
-            # a number that does not fit a database integer (e.g. a primary key
-            # taken from a URL) matches nothing
-            return None
+        for value in kwargs.values():
+            if isinstance(value, int) and not (-(1 << 63) <= value < (1 << 63)):
+                # a number that does not fit a database integer (e.g. a primary
+                # key taken from a URL) matches nothing
+                return None
+        return cast(Optional[T], session.execute(
+            db.select(cls).filter_by(**kwargs)).scalar_one_or_none())
 
     @classmethod
     def search(clz, max_items: int | None = None,
